@@ -30,7 +30,7 @@ CHECKS = {
    note="Trusted: Kani/CBMC/CaDiCaL. new,+,-,neg,*,assigning forms,==,Readable,Writable are additionally decided for EVERY modulus 2<=M<2^31 on the MIR with a symbolic modulus (z3); inv,/ and pow per listed modulus only; Display outside."),
  "C07": dict(engine="kani", design="DESIGN.md#c07",
    technique="bounded symbolic model checking of the compiled code (Kani/CBMC + CaDiCaL): symbolic fractions, cross-multiplication in a wider type",
-   text="For T in {i8,i16,i64} (+ i32,i128 thorough) and all fractions with bounded components and denominators of either sign: every operator form returns the exact value in lowest terms with a positive denominator, cmp is the numeric order and consistent with ==, equal values hash identically, floor/ceil are exact.",
+   text="For T in {i8,i16} (all operators; i64 constructor and floor/ceil in quick; i64, i32, i128 in thorough) and all fractions with bounded components and denominators of either sign: every operator form returns the exact value in lowest terms with a positive denominator, cmp is the numeric order and consistent with ==, equal values hash identically, floor/ceil are exact.",
    note="Trusted: Kani/CBMC/CaDiCaL. Components <= 7 (i8, i64) / 10 (i16, i32) / 5 (i128); larger magnitudes outside (Euclid with symbolic division is the cost driver)."),
  "C08": dict(engine="mirsym", design="DESIGN.md#c08",
    technique="path-wise symbolic execution of the nightly MIR of rlib_io with z3: byte contents, chunk schedule and Interrupted faults are symbolic/forked inputs",
